@@ -116,7 +116,7 @@ impl<T> Arr2D<T> {
     /// This function will return an error if the size isn't divislbe by the new height
     pub fn reshape(&mut self, height: usize) -> Result<(), Arr2DError> {
         let size = self.height * self.width;
-        if !size.is_multiple_of(height) {
+        if height == 0 || !size.is_multiple_of(height) {
             return Err(Arr2DError::InvalidReshape {
                 size,
                 new_height: height,
